@@ -79,4 +79,7 @@ def h_rest_api_client_client_go : Nat := 0x17c2ffbc68b96fd9
 /-- hash of the normalised skeleton of * (cmd/start.go) -/
 def h_rest_api_cmd_start_go : Nat := 0x2e014ea9d86ba5cc
 
+/-- hash of the normalised skeleton of * (internal/persistence/model/status.go) -/
+def h_rest_api_persistence_model_status_go : Nat := 0xbeb2f7a53253ed76
+
 end BdModel.Canon.Api
